@@ -227,6 +227,14 @@ func (h *NFSProcedureHandler) handleMkdir(body io.Reader, reply *RPCReply, authC
 		return reply, nil
 	}
 
+	// Invalidate parent directory caches and negative cache entries, as CREATE does
+	h.server.handler.attrCache.Invalidate(node.path)
+	h.server.handler.attrCache.InvalidateNegativeInDir(node.path)
+	h.server.handler.attrCache.Invalidate(dirPath)
+	if h.server.handler.dirCache != nil {
+		h.server.handler.dirCache.Invalidate(node.path)
+	}
+
 	// Apply uid/gid: use effective UID/GID from auth context as default,
 	// only allow explicit override if caller is root (not squashed).
 	{
